@@ -105,6 +105,10 @@ class SV:
                 pinf, ninf, t = (TRUE, None, RV(0)) if t > 0 else (None, TRUE, RV(0))
             else:
                 t = RV(t) if isinstance(t, float) else z3.IntVal(t)
+        if pinf is not None and z3.is_false(z3.simplify(pinf)):
+            pinf = None
+        if ninf is not None and z3.is_false(z3.simplify(ninf)):
+            ninf = None
         self.t = t
         self.pinf = pinf
         self.ninf = ninf
@@ -489,3 +493,47 @@ def model_value(m, const):
     if z3.is_false(v):
         return False
     return str(v)
+
+
+# --------------------------------------------------------------------------------------------
+# log-normalisation: lg of a positive term as a polynomial over lg(atom)
+# --------------------------------------------------------------------------------------------
+def logform(t, atoms):
+    """Return a term denoting lg(t) in which products, quotients, powers, 10**u and nested lg(...) of compound positive terms are expanded
+    with lg(ab) = lg a + lg b, lg(a/b) = lg a - lg b, lg(10**u) = u.  `atoms` collects the sub-terms that were treated as opaque positive
+    quantities: the expansion is valid when every atom is > 0 (the caller discharges that)."""
+    if z3.is_app_of(t, z3.Z3_OP_TO_REAL):
+        return logform(t.arg(0), atoms)
+    if z3.is_rational_value(t) or z3.is_int_value(t):
+        atoms[t.get_id()] = t
+        return lg(to_real(t))
+    if z3.is_mul(t):
+        return z3.Sum([logform(c, atoms) for c in t.children()])
+    if z3.is_div(t):
+        return logform(t.arg(0), atoms) - logform(t.arg(1), atoms)
+    if z3.is_app_of(t, z3.Z3_OP_ITE):
+        return z3.If(t.arg(0), logform(t.arg(1), atoms), logform(t.arg(2), atoms))
+    if z3.is_app(t) and t.decl().kind() == z3.Z3_OP_UNINTERPRETED and t.decl().arity() == 1 and t.decl().name() == 'ex':
+        return expand_logs(t.arg(0), atoms)
+    atoms[t.get_id()] = t
+    return lg(t)
+
+
+def expand_logs(u, atoms):
+    """replace every lg(x) inside u by logform(x)"""
+    cache = {}
+
+    def rec(x):
+        k = x.get_id()
+        if k in cache:
+            return cache[k]
+        if z3.is_app(x) and x.decl().kind() == z3.Z3_OP_UNINTERPRETED and x.decl().arity() == 1 and x.decl().name() == 'lg':
+            r = logform(x.arg(0), atoms)
+        elif z3.is_app(x) and x.num_args() > 0:
+            ch = [rec(c) for c in x.children()]
+            r = x.decl()(*ch)
+        else:
+            r = x
+        cache[k] = r
+        return r
+    return rec(u)
